@@ -298,6 +298,41 @@ Proof.
     + assert (E : T + 1 / inject_Z sr == T * 1 + 1 / inject_Z sr) by ring. lra.
 Qed.
 
+(** The code after the repair of F35 computes that length in integer arithmetic: it IS the exact floor. *)
+Lemma qfloor_secs (t_ns sr : Z) : Qfloor (secs_of_ns t_ns * inject_Z sr) = (t_ns * sr / 1000000000)%Z.
+Proof.
+  rewrite (Qfloor_comp _ ((t_ns * sr) # 1000000000)); [reflexivity|].
+  unfold secs_of_ns, Qeq, Qdiv, Qmult, Qinv, inject_Z; cbn. ring.
+Qed.
+
+Theorem delay_frames_int_exact_l (t_ns sr : Z) :
+  (0 <= t_ns)%Z -> (0 < sr)%Z -> secs_of_ns t_ns * inject_Z sr < inject_Z (2 ^ 64 - 1) ->
+  delay_frames_int t_ns sr = @delay_frames Q _ _ t_ns sr /\
+  delay_frames_int t_ns sr = Z.max 1 (Qfloor (secs_of_ns t_ns * inject_Z sr)).
+Proof.
+  intros Ht Hsr Hbig.
+  destruct (delay_time_error_l t_ns sr Ht Hsr Hbig) as [A B]. cbv zeta in A, B.
+  destruct (Qfloor_bounds (secs_of_ns t_ns * inject_Z sr)) as [B1 B2].
+  assert (U : (Qfloor (secs_of_ns t_ns * inject_Z sr) <= 2 ^ 64 - 1)%Z) by (rewrite Zle_Qle; lra).
+  assert (E : delay_frames_int t_ns sr = Z.max 1 (Qfloor (secs_of_ns t_ns * inject_Z sr))).
+  { unfold delay_frames_int. rewrite <- qfloor_secs. lia. }
+  split; [|exact E]. rewrite E.
+  destruct (Qlt_le_dec (secs_of_ns t_ns * inject_Z sr) 1) as [H|H].
+  - destruct (B H) as [L1 _]. rewrite L1.
+    assert (F : Qfloor (secs_of_ns t_ns * inject_Z sr) = 0%Z).
+    { assert (T0 : 0 <= secs_of_ns t_ns).
+      { unfold secs_of_ns. apply Qle_shift_div_l; [reflexivity|]. rewrite Qmult_0_l. change 0 with (inject_Z 0). rewrite <- Zle_Qle. exact Ht. }
+      assert (S0 : 0 <= inject_Z sr) by (change 0 with (inject_Z 0); rewrite <- Zle_Qle; lia).
+      assert (P0 : 0 <= secs_of_ns t_ns * inject_Z sr) by (apply Qmult_le_0_compat; assumption).
+      apply Qfloor_unique; change (inject_Z 0) with 0; lra. }
+    rewrite F. reflexivity.
+  - destruct (A H) as [L1 _]. rewrite L1.
+    assert (F : (1 <= Qfloor (secs_of_ns t_ns * inject_Z sr))%Z).
+    { assert (G : (1 < Qfloor (secs_of_ns t_ns * inject_Z sr) + 1)%Z); [|lia]. rewrite Zlt_Qlt, inject_Z_plus. change (inject_Z 1) with 1. lra. }
+    lia.
+Qed.
+
+
 (** ** filters: the coefficient argument is a function of cutoff / rate alone *)
 Lemma nclamp_compat (x y lo hi : Q) : x == y -> @nclamp Q _ x lo hi == @nclamp Q _ y lo hi.
 Proof.
